@@ -391,6 +391,22 @@ def fixed_scenarios() -> List[Dict[str, Any]]:
         scs.append({"arch": e, "method": "SN", "mode": mode, "fold": False, "auto": True, "seed": 14,
                     "hist": ["eval", "export", "summary", "cost"]})
         scs.append({"arch": e, "method": "SN", "mode": mode, "fold": False, "auto": True, "seed": 14, "hist": ["train", "export", "eval"]})
+    # the finding topologies, so that every listed finding is reproduced by every run: searchable Linear on a 3-D tensor (F52:
+    # forward raises / export raises), BatchNorm without affine parameters (F53); and the same BatchNorm where PIT accepts it
+    for out in (4, 3):
+        f = {"dim": 1, "c0": 2, "sp": 6, "nodes": [
+            {"op": "conv", "ins": [0], "out": 3, "k": 3, "pad": "same"}, {"op": "lin3", "ins": [1], "out": out},
+            {"op": "relu", "ins": [2]}, {"op": "flat", "ins": [3]}, {"op": "lin", "ins": [4], "out": 2}]}
+        scs.append({"arch": f, "method": "PIT", "mode": "eval", "fold": False, "auto": True, "seed": 21, "hist": ["export"]})
+    for dim in (1, 2):
+        g = {"dim": dim, "c0": 2, "sp": 4, "nodes": [
+            {"op": "conv", "ins": [0], "out": 3, "k": 3, "pad": "int", "bn": True, "aff": False, "pl": True},
+            {"op": "relu", "ins": [1]}, {"op": "flat", "ins": [2]},
+            {"op": "lin", "ins": [3], "out": 3, "bn": True, "aff": False, "eps": 1, "pl": True}, {"op": "relu", "ins": [4]},
+            {"op": "lin", "ins": [5], "out": 2, "bn": True, "aff": False}]}
+        for auto in (True, False):
+            for fold in (False, True):
+                scs.append({"arch": g, "method": "PIT", "mode": "eval", "fold": fold, "auto": auto, "seed": 22 + dim, "hist": []})
     for s in scs:
         s["arch"] = import_gen.norm_iarch(s["arch"])
         s["src"] = "fixed"
@@ -491,7 +507,8 @@ def run(tier: str, seed: int, replay=None) -> int:
               "valid/causal x padding_mode zeros/reflect/replicate/circular x dilation x stride x groups x BatchNorm default/no affine/"
               "no running stats/other eps+momentum x SuperNet option presets x linear on 3-D input); (3) histories: every call "
               f"history of length <= {hl} over train/eval/export/summary/cost/forward of ImportLifeMC_hist{hl} on one-layer networks; "
-              + ("stratified samples of (1)-(3)" if quick else "all of (1)-(3)")
+              + ("stratified samples of (1)-(3): 280 / 260 / 360" if quick else "stratified 8000 of (1), all of (2), stratified 5000 of (3) incl. "
+                 "every distinct history per method")
               + "; (4) seeded random architectures of the same grammar with up to ~12 nodes, widths 2..6, kernels 1..5, random "
               "configurations, Dropout, excluded layers followed by BatchNorm, random histories; (5) hand-written shapes of the "
               "repository's test models. Non-trivial = see _nontrivial (something to fuse / fold / adopt / select / copy, or a history).")
@@ -563,7 +580,7 @@ def run(tier: str, seed: int, replay=None) -> int:
         c = tlc.parse_value(r["cfg_txt"])
         hpool.setdefault((c["method"], c["mode"]), []).append(list(tlc.parse_value(r["hist_txt"])))
     scs: List[Dict[str, Any]] = []
-    for r in _stratified(raws["scen"], 280 if quick else 0, rng):
+    for r in _stratified(raws["scen"], 280 if quick else 8000, rng):
         c = tlc.parse_value(r["cfg_txt"])
         scs.append(_materialize(r, rng, "tlc-structure", hist=rng.choice(hpool[(c["method"], c["mode"])])))
     for r in _stratified(raws["scen_cfg"], 260 if quick else 0, rng):
@@ -571,7 +588,7 @@ def run(tier: str, seed: int, replay=None) -> int:
     # every distinct history at least once per method; beyond that stratified by (architecture features, history)
     for r in hraws:
         r["hkey"] = (tlc.parse_value(r["cfg_txt"])["method"], r["hist_txt"])
-    scs += [_materialize(r, rng, "tlc-history") for r in _stratified(hraws, 360 if quick else 0, rng, key="hkey")]
+    scs += [_materialize(r, rng, "tlc-history") for r in _stratified(hraws, 360 if quick else 5000, rng, key="hkey")]
     R.extra["tlc_scenarios_executed"] = len(scs)
     R.extra["distinct_histories_executed"] = len({(s["method"], tuple(s["hist"])) for s in scs})
     # ---------------------------------------------------------------- code -> spec: random scenarios beyond the bounds
